@@ -78,8 +78,18 @@ def run(ck, facts):
     for path, kind, what, f, ln in hits:
         key = (path, kind)
         seen.setdefault(key, []).append((what, f, ln))
+    BACKENDS = {"c", "cpp", "js", "dart", "kotlin", "nanobind", "demo_gen", "config", "ast", "hir"}
+
+    def modgroup(path_):
+        segs = C.norm_path(path_).split("::")
+        return "::".join(segs[:2]) if len(segs) > 2 and segs[1] in BACKENDS else segs[0]
     for (path, kind), occ in sorted(seen.items()):
         e = allow.get((path, kind))
+        if e is None:
+            # the effect may have moved into a helper / another function of the same module group: reuse the triage of an entry whose own function lost it
+            moved = [v for (fp, kd), v in allow.items() if kd == kind and (fp, kd) not in seen and modgroup(fp) == modgroup(path)]
+            if moved:
+                e = moved[0]
         k = "%s/%s" % (path.replace("diplomat_tool::", "tool::").replace("diplomat_core::", "core::"), kind)
         if e is None:
             ck.bad("R1", k, "untriaged %s in %s: %s — its order/value can reach the generated output" % (kind, path, occ[0][0]), C.loc(occ[0][1], occ[0][2]))
